@@ -13,6 +13,7 @@ mod fstw;
 mod hier;
 mod detect;
 mod slice;
+mod loadseq;
 
 fn dispatch(cmd: &str, args: &[&str]) -> String {
     match cmd {
@@ -24,6 +25,10 @@ fn dispatch(cmd: &str, args: &[&str]) -> String {
         "vhdr" => hier::run_vhdr(args),
         "detect" => detect::run(args),
         "slice" => slice::run(args),
+        "loadseq" => loadseq::run(args),
+        "loadseqf" => loadseq::run_file(args),
+        "loadsrc" => loadseq::run_source(args),
+        "nsig" => loadseq::run_nsig(args),
         "ghwslices" => slice::run_ghw(args),
         "detectc" => detect::run_cursor(args),
         "vcd" => vcd::run_vcd(args),
